@@ -271,6 +271,35 @@ def library_history_oracle(ctx):
         rs = np.random.RandomState(r.randrange(1 << 30))
         hist_desc = []
         ok = True
+        # `started` and the refusals, on a third instance of this library computer: an utterance that opens with an EMPTY
+        # chunk is in progress like any other
+        try:
+            c3 = make()
+            obs = [bool(c3.started)]
+            c3.compute_chunk(np.zeros(0))
+            obs.append(bool(c3.started))
+            refused = []
+            for call in (lambda: c3.compute_full(rs.randn(2 * L + 3)), lambda: compute.frame_by_frame_calculation(c3, rs.randn(L + 1), 7)):
+                try:
+                    call()
+                    refused.append("returned")
+                except ValueError:
+                    refused.append("ValueError")
+            obs.append(bool(c3.started))
+            c3.compute_chunk(rs.randn(L // 2 + 1))
+            c3.finalize()
+            obs.append(bool(c3.started))
+            spec_case = dict(computer=which, bank=kind, style=style, L=L, S=S, ops=["started?", "compute_chunk(empty)", "started?",
+                             "compute_full", "frame_by_frame", "started?", "compute_chunk", "finalize", "started?"])
+            ctx.case(spec_case, kind="library_started:" + which)
+            if obs != [False, True, True, False] or refused != ["ValueError", "ValueError"]:
+                ctx.violation(spec_case, dict(started=[False, True, True, False], refusals=["ValueError", "ValueError"]),
+                              dict(started=obs, refusals=refused),
+                              "started is true exactly from the first compute_chunk (an empty one included) until finalize; compute_full and "
+                              "frame_by_frame_calculation refuse mid-utterance", tags=dict(clause="started_spec_library", computer=which))
+        except Exception as e:
+            ctx.violation(dict(computer=which, bank=kind, style=style, L=L, S=S, ops="started / refusal probe"), "no exception",
+                          "%s: %s" % (type(e).__name__, e), "history of calls raises", tags=dict(clause="raises", computer=which, exc=type(e).__name__))
         try:
             for _u in range(r.randrange(1, 4)):
                 N = r.choice([0, 1, L // 2, L, 3 * L + 5])
